@@ -541,32 +541,70 @@ def rule_R2(ctx: Ctx, mgrs):
                         nm = f.args[0].id
                         if nm in outer_assigned and nm not in inner.local_names():
                             ctx.finding("R2", inner, c, f"the backend `{nm}` is looked up once when the wrapper is created, not on every call")
-        # use_dynamic_dispatch installs the wrapper for every name in _functions
-        u = _manager_method(repo, mgr, "use_dynamic_dispatch")
-        ok = False
-        for loop in own_scope_nodes(u.node):
-            if isinstance(loop, ast.For) and isinstance(loop.iter, ast.Attribute) and loop.iter.attr == "_functions" and isinstance(loop.target, ast.Name):
-                nm = loop.target.id
-                for c in ast.walk(loop):
-                    if isinstance(c, ast.Call) and is_name(c.func, "setattr") and len(c.args) == 3 and is_name(c.args[1], nm):
-                        from ..common import inline_locals
+        # use_dynamic_dispatch installs the wrapper for every name in _functions (read on the function with its
+        # local helpers expanded; the loop may run over a name bound to cls._functions, the installed value may be
+        # built in an earlier statement or in one arm of a function / attribute switch)
+        from ..inline import with_inlined
+        from .state import _resolve_at
 
-                        v = inline_locals(u.node, c.args[2])  # dispatched = cls.dispatch_backend_method(...); setattr(cls, name, staticmethod(dispatched))
-                        if isinstance(v, ast.Call) and is_name(v.func, "staticmethod") and v.args:
-                            v = v.args[0]
-                        if isinstance(v, ast.Call):
-                            first = v.args[0] if v.args else next((k.value for k in v.keywords if k.arg == "name"), None)
-                            if isinstance(v.func, ast.Attribute) and v.func.attr == "dispatch_backend_method" and is_name(first, nm):
-                                ok = True
-        res.instance("R2", f"{u.qname}: installs wrapper for every _functions name", sample={"ok": ok})
+        u0 = _manager_method(repo, mgr, "use_dynamic_dispatch")
+        u = with_inlined(repo, u0)
+        ok = False
+
+        def is_dispatch(v, nm):
+            if isinstance(v, ast.Call) and is_name(v.func, "staticmethod") and v.args:
+                v = v.args[0]
+            if isinstance(v, ast.Call) and isinstance(v.func, ast.Attribute) and v.func.attr == "dispatch_backend_method":
+                first = v.args[0] if v.args else next((k.value for k in v.keywords if k.arg == "name"), None)
+                return is_name(first, nm)
+            return False
+
+        for loop in own_scope_nodes(u.node):
+            if not (isinstance(loop, ast.For) and isinstance(loop.target, ast.Name)):
+                continue
+            it = loop.iter if isinstance(loop.iter, ast.Attribute) else _resolve_at(loop.iter, loop, u.node, depth=2)
+            if not (isinstance(it, ast.Attribute) and it.attr == "_functions"):
+                continue
+            nm = loop.target.id
+            for c in ast.walk(loop):
+                if isinstance(c, ast.Call) and is_name(c.func, "setattr") and len(c.args) == 3 and is_name(c.args[1], nm):
+                    v = c.args[2]
+                    cands = [_resolve_at(v, c, u.node, depth=3)]
+                    if isinstance(v, ast.Name):
+                        cands += [st.value for st in ast.walk(loop) if isinstance(st, ast.Assign) and any(is_name(t, v.id) for t in st.targets)]
+                    if any(is_dispatch(x, nm) for x in cands):
+                        ok = True
+        res.instance("R2", f"{u0.qname}: installs wrapper for every _functions name", sample={"ok": ok})
         if not ok:
-            ctx.finding("R2", u, u.node, "use_dynamic_dispatch does not install dispatch_backend_method(name, ...) for every name of _functions", construct=f"def {u.name} in {mgr.name}")
-        # the module initialises dynamic dispatch
+            ctx.finding("R2", u0, u0.node, "use_dynamic_dispatch does not install dispatch_backend_method(name, ...) for every name of _functions", construct=f"def {u0.name} in {mgr.name}")
+        # the module initialises dynamic dispatch: at import, directly, through a module-level helper it calls, or
+        # by looking the method up by name
         mod = mgr.module
         init_ok = False
-        for st in mod.tree.body:
-            if isinstance(st, ast.Expr) and isinstance(st.value, ast.Call) and isinstance(st.value.func, ast.Attribute) and st.value.func.attr == "use_dynamic_dispatch" and is_name(st.value.func.value, mgr.name):
-                init_ok = True
+        helpers_ = {st.name: st for st in mod.tree.body if isinstance(st, ast.FunctionDef)}
+
+        def executed(stmts, depth=0):
+            out = []
+            for st in stmts:
+                if isinstance(st, (ast.FunctionDef, ast.AsyncFunctionDef, ast.ClassDef)):
+                    continue
+                out.append(st)
+                if depth < 1:
+                    for c in ast.walk(st):
+                        if isinstance(c, ast.Call) and isinstance(c.func, ast.Name) and c.func.id in helpers_:
+                            out += executed(helpers_[c.func.id].body, depth + 1)
+            return out
+
+        for st in executed(mod.tree.body):
+            for c in ast.walk(st):
+                if isinstance(c, ast.Call) and isinstance(c.func, ast.Attribute) and c.func.attr == "use_dynamic_dispatch":
+                    init_ok = True
+                if isinstance(c, ast.Call) and isinstance(c.func, ast.Call) and is_name(c.func.func, "getattr") and len(c.func.args) == 2:
+                    key = c.func.args[1]
+                    if is_const(key, "use_dynamic_dispatch"):
+                        init_ok = True
+                    elif isinstance(key, ast.Name) and isinstance(st, ast.For) and is_name(st.target, key.id) and isinstance(st.iter, (ast.Tuple, ast.List)) and any(is_const(e, "use_dynamic_dispatch") for e in st.iter.elts):
+                        init_ok = True
         res.instance("R2", f"{mod.name}: module enables dynamic dispatch", sample={"ok": init_ok})
         if not init_ok:
             ctx.finding("R2", mod, None, f"{mod.name} no longer calls {mgr.name}.use_dynamic_dispatch() at import: dispatched functions are bound statically", construct=f"{mgr.name}.use_dynamic_dispatch()")
